@@ -741,7 +741,6 @@ func (s *State) applyFunction(name string, fn object.Object, args []object.Objec
 	before := s.env.GetMisses()
 	res := s.Eval(newBody) // Need to have the return value unwrapped. Fixes bug #46, also need to count recursion.
 	after := s.env.GetMisses()
-	cantCache := s.env.CantCache()
 	// restore the previous env/state.
 	s.env = curState
 	s.Out = oldOut
@@ -755,10 +754,9 @@ func (s *State) applyFunction(name string, fn object.Object, args []object.Objec
 	}
 	if after != before {
 		log.Debugf("Cache miss for %s %v, %d get misses", function.CacheKey, args, after-before)
-		// Propagate the can't cache
-		if cantCache {
-			s.env.TriggerNoCache()
-		}
+		// Propagate: a caller of something that reads or writes outer state (or isn't cacheable) isn't
+		// repeatable from its arguments alone either; remembering its result would skip those effects.
+		s.env.TriggerNoCache()
 		return res
 	}
 	// Don't cache errors, as it could be due to binding for instance.
